@@ -182,7 +182,12 @@ def jobs(tier, seed):
         shapes += [(False, ['restart', 'restart', 'stop'], {}), (False, ['restart', 'stop', 'restart'], {}),
                    (False, ['restart', 'restart'], {1: 'restart', 2: 'restart'}),
                    (True, ['restart', 'restart', 'stop'], {}), (True, ['restart', 'stop'], {1: 'restart'}),
-                   (True, ['stop'], {1: 'restart', 2: 'restart'})]
+                   (True, ['stop'], {1: 'restart', 2: 'restart'}),
+                   # four controller calls; stop and restart mixed between the controller and the callback
+                   (False, ['restart', 'stop', 'restart', 'stop'], {}), (False, ['stop', 'stop', 'restart', 'restart'], {}),
+                   (False, ['restart', 'restart', 'restart'], {1: 'stop'}), (False, ['stop', 'restart'], {1: 'restart', 2: 'stop'}),
+                   (True, ['restart', 'stop', 'restart', 'stop'], {}), (True, ['restart', 'restart'], {2: 'restart', 4: 'stop'}),
+                   (True, ['stop', 'restart'], {1: 'restart', 3: 'stop'}), (True, [], {1: 'restart', 2: 'restart', 3: 'restart', 4: 'stop'})]
     for si, (auto, ctrl, cb) in enumerate(shapes):
         bounded = (not auto) or ('stop' in ctrl and False) or any(v == 'stop' for v in cb.values())
         for argmode in ('list', 'scalar') if si % 3 != 2 else ('none', 'scalar'):
@@ -210,7 +215,7 @@ META = {
     'required_covers': ['nontrivial', 'fired', 'stop', 'restart-pending', 'restart-from-callback'],
     'bounds': {'quick': '16 scripts: one-shot and auto-restart, <= 2 controller calls, <= 2 callback-issued calls; all instants, timeouts, '
                         'taus symbolic and unbounded; auto-restart timers: input regions with more than 3 firings are outside the bound',
-               'thorough': '22 scripts, <= 3 controller calls; auto-restart <= 4 firings'},
+               'thorough': '30 scripts, <= 4 controller calls; auto-restart <= 4 firings'},
     'assumptions': ['restart() from outside on a one-shot timer that has already fired is not determined by the statement: after '
                     'it only no-raise and argument equality are asserted',
                     'calls at exactly an expiry instant are resolved in the order in which the kernel performs them'],
